@@ -430,6 +430,13 @@ func (u *clientUpdater) updateService(ctx context.Context, service ServiceDefini
 		return fmt.Errorf("failed to wipe on testSeed change (service=%s, testSeed=%s): %w", service.ID, seed, err)
 	}
 	for _, presentation := range presentations {
+		if presentation.ID == nil {
+			// can't be stored or found again without an ID; the server should not have accepted it
+			log.Logger().
+				WithField("discoveryService", service.ID).
+				Warn("Discovery Service returned a Verifiable Presentation without ID, skipping it")
+			continue
+		}
 		// Check if the presentation already exists
 		credentialSubjectID, err := credential.PresentationSigner(presentation)
 		if err != nil {
